@@ -179,16 +179,17 @@ impl FrameReader for QuicFrameReader {
 struct QuicFrameWriter {
     conn: Connection,
     session_id: u32,
-    frame_id: u16,
 }
+
+// Fragment ids are the reassembly key of the receiving end, and that end reassembles per
+// connection, not per session: all sessions must draw their ids from one sequence. (With a counter
+// per session every session started at 0, so after a lost fragment the leftovers of one session's
+// frame were completed with fragments of another session's frame that carried the same id.)
+static NEXT_FRAME_ID: std::sync::atomic::AtomicU16 = std::sync::atomic::AtomicU16::new(0);
 
 impl QuicFrameWriter {
     fn new(conn: Connection, session_id: u32) -> Box<Self> {
-        Box::new(Self {
-            conn,
-            session_id,
-            frame_id: 0,
-        })
+        Box::new(Self { conn, session_id })
     }
 }
 
@@ -209,7 +210,8 @@ impl FrameWriter for QuicFrameWriter {
                 "Datagram not allowed for this connection",
             ));
         }
-        let fragments = Fragments::make_fragments(mtu.unwrap(), &mut self.frame_id, frame);
+        let mut frame_id = NEXT_FRAME_ID.fetch_add(1, std::sync::atomic::Ordering::Relaxed);
+        let fragments = Fragments::make_fragments(mtu.unwrap(), &mut frame_id, frame);
         if !fragments.is_representable() {
             return Err(IoError::new(
                 ErrorKind::InvalidInput,
